@@ -6,6 +6,7 @@ import (
 
 	"github.com/DDP-Projekt/Kompilierer/src/ddptypes"
 	"github.com/DDP-Projekt/Kompilierer/src/token"
+	"github.com/DDP-Projekt/Kompilierer/src/verifhook"
 )
 
 // check if the function is defined externally
@@ -102,6 +103,7 @@ func IterateImportedDecls(imprt *ImportStmt, fun func(name string, decl Declarat
 			for _, decl := range module.PublicDecls {
 				decls = append(decls, decl)
 			}
+			verifhook.Order("ast.IterateImportedDecls", decls)
 
 			// sort by occurence in the source file
 			sort.Slice(decls, func(i, j int) bool {
